@@ -453,6 +453,10 @@ def float_method(eng, v, n, args, kw):
     if n == "is_integer":
         if v.ival is not None:
             return True
+        if v.dec is not None:
+            # shortest decimal digits d1..dn (dn != 0) at exponent e10: an integer iff no digit is fractional
+            # (such integers are below 10^16 < 2^53.2 ... exact doubles for n <= 15)
+            return v.dec[2] >= len(v.dec[1]) - 1
         if v.t is None:
             x = eng.real_of(v)
             return mkbool(x == z3.ToReal(eng.real_floor(x)))
